@@ -129,6 +129,67 @@ def base2 (av ac au c i a : Bytes) : Option Int :=
     some (Q.roundHalfAway ((((Q.dec 6 10 * impact) + (Q.dec 4 10 * exploitability)) - Q.dec 15 10) * f * ten))
   | _, _, _, _, _, _ => none
 
+/-! ### environmental scores -/
+
+/-- v3 section 4.2 "Modified Base Metrics": a Modified metric that is Not
+    Defined (X) — or absent from the vector (`0`) — takes the value of the
+    corresponding Base metric.  `md` is the Modified letter, `b` the Base letter. -/
+def modified3 (md b : Nat) : Nat := if md = 0 ∨ md = cX then b else md
+
+/-- a metric absent from the vector is Not Defined (X) -/
+def orX (b : Nat) : Nat := if b = 0 then cX else b
+
+/-- Roundup by minor version -/
+def roundup3 (minor : Nat) (x : Q) : Int := if minor = 0 then roundup30 x else roundup31 x
+
+/-- ModifiedImpact (section 7.3) from the Modified Scope letter and MISS:
+    Unchanged 6.42 × MISS; Changed, v3.0: 7.52 × (MISS − 0.029) − 3.25 × (MISS − 0.02)^15,
+    v3.1: 7.52 × (MISS − 0.029) − 3.25 × (MISS × 0.9731 − 0.02)^13. -/
+def mimpact3 (minor ms : Nat) (miss : Q) : Q :=
+  if ms = cC then
+    (if minor = 0 then Q.dec 752 100 * (miss - Q.dec 29 1000) - Q.dec 325 100 * Q.pow (miss - Q.dec 2 100) 15
+     else Q.dec 752 100 * (miss - Q.dec 29 1000) - Q.dec 325 100 * Q.pow (miss * Q.dec 9731 10000 - Q.dec 2 100) 13)
+  else Q.dec 642 100 * miss
+
+/-- the argument of the inner Roundup: ModifiedImpact + ModifiedExploitability,
+    times 1.08 when the Modified Scope is Changed (before the cap at 10) -/
+def minner3 (ms : Nat) (mimpact mexpl : Q) : Q :=
+  if ms = cC then Q.dec 108 100 * (mimpact + mexpl) else mimpact + mexpl
+
+/-- EnvironmentalScore (section 7.3) from the eight effective Modified letters
+    (`modified3`), the three requirement letters and the three temporal letters:
+    MISS = Min(1 − (1−CR×MC)(1−IR×MI)(1−AR×MA), 0.915);
+    ModifiedExploitability = 8.22 × MAV × MAC × MPR × MUI (MPR by Modified Scope);
+    0 if ModifiedImpact ≤ 0, else
+    Roundup(Roundup[Min(f × (ModifiedImpact + ModifiedExploitability), 10)] × E × RL × RC), f = 1 / 1.08. -/
+def env3 (minor mav mac mpr mui ms mc mi ma cr ir ar e rl rc : Nat) : Option Int :=
+  match w3 11 cr, w3 12 ir, w3 13 ar, w3 5 mc, w3 6 mi, w3 7 ma, exploitability3 ms mav mac mpr mui,
+        w3 8 e, w3 9 rl, w3 10 rc with
+  | some cr, some ir, some ar, some mc, some mi, some ma, some mexpl, some e, some rl, some rc =>
+    let miss := Q.min (Q.dec 915 1000) (one - ((one - cr * mc) * (one - ir * mi) * (one - ar * ma)))
+    let mimpact := mimpact3 minor ms miss
+    if Q.le mimpact (Q.ofInt 0) then some 0
+    else some (roundup3 minor (tenth (roundup3 minor (Q.min (minner3 ms mimpact mexpl) ten)) * e * rl * rc))
+  | _, _, _, _, _, _, _, _, _, _ => none
+
+/-- v2 guide 3.2.3, from the fourteen value abbreviations (ND where a metric is not in the vector):
+    AdjustedImpact = min(10, 10.41 × (1 − (1−C×CR)(1−I×IR)(1−A×AR)));
+    AdjustedBase = the base equation over AdjustedImpact;
+    AdjustedTemporal = round_to_1_decimal(AdjustedBase × E × RL × RC);
+    EnvironmentalScore = round_to_1_decimal((AdjustedTemporal + (10 − AdjustedTemporal) × CDP) × TD). -/
+def env2 (av ac au c i a e rl rc cdp td cr ir ar : Bytes) : Option Int :=
+  match w2 0 av, w2 1 ac, w2 2 au, w2 3 c, w2 4 i, w2 5 a, w2 6 e, w2 7 rl, w2 8 rc, w2 9 cdp, w2 10 td,
+        w2 11 cr, w2 12 ir, w2 13 ar with
+  | some av, some ac, some au, some c, some i, some a, some e, some rl, some rc, some cdp, some td,
+    some cr, some ir, some ar =>
+    let adjImpact := Q.min ten (Q.dec 1041 100 * (one - (one - c * cr) * (one - i * ir) * (one - a * ar)))
+    let exploitability := Q.ofInt 20 * av * ac * au
+    let f := if adjImpact.isZero then Q.ofInt 0 else Q.dec 1176 1000
+    let adjBase := Q.roundHalfAway ((((Q.dec 6 10 * adjImpact) + (Q.dec 4 10 * exploitability)) - Q.dec 15 10) * f * ten)
+    let adjTemporal := Q.roundHalfAway (tenth adjBase * e * rl * rc * ten)
+    some (Q.roundHalfAway ((tenth adjTemporal + (ten - tenth adjTemporal) * cdp) * td * ten))
+  | _, _, _, _, _, _, _, _, _, _, _, _, _, _ => none
+
 /-- Qualitative severity rating scale (v3.1 section 5, v4.0 section 6), as
     inclusive ranges of score*10: 1 None, 2 Low, 3 Medium, 4 High, 5 Critical. -/
 def ratingBands : List (Int × Int × Nat) := [(0, 0, 1), (1, 39, 2), (40, 69, 3), (70, 89, 4), (90, 100, 5)]
